@@ -51,15 +51,17 @@ Definition use_raw_data (h : hints) : bool :=
   || ((0 <? h_range h)%Z && (h_range h <? 15000)%Z)
   || negb (is_supported || negb ok).
 
-(* ---------- InitClickhousePlanner.Process ---------- *)
+(* ---------- InitClickhousePlanner.Process ----------
+   the window is [hints.Start, hints.End] in milliseconds, both ends included (fix f155c1f):
+   timestamp_ns >= From and timestamp_ns < To + 1 ms *)
 Definition ts_ms_col : expr := Col (Fn "intDiv" [Id "samples.timestamp_ns"; IntV 1000000]) "timestamp_ms".
 Definition with_limit (c : pctx) (s : select) : select :=
   if (0 <? c_limit c)%Z then set_limit (Some (IntV (c_limit c))) s else s.
 Definition init_clickhouse (c : pctx) : select :=
   with_limit c
    (set_orderby [Ord (Id "fingerprint") true; Ord (Id "samples.timestamp_ns") true]
-    (and_where [Gt (Id "samples.timestamp_ns") (IntV (c_from_ns c));
-                Le (Id "samples.timestamp_ns") (IntV (c_to_ns c)); get_types c]
+    (and_where [Ge (Id "samples.timestamp_ns") (IntV (c_from_ns c));
+                Lt (Id "samples.timestamp_ns") (IntV (c_to_ns c + 1000000)); get_types c]
      (set_from (SimpleCol (t_samples c) "samples")
       (set_cols [SimpleCol "samples.fingerprint" "fingerprint"; SimpleCol "samples.value" "value"; ts_ms_col]
         empty_select)))).
@@ -73,7 +75,35 @@ Definition prom_matcher (m : matcher) : matcher :=
   | MRe | MNre => {| m_name := m_name m; m_op := m_op m; m_val := anchor (m_val m) |}
   | _ => m
   end.
-Definition fingerprints_query (c : pctx) (ms : list matcher) : select := stream_select c (map prom_matcher ms).
+
+(* labels.Matcher.Matches: the Prometheus meaning of one matcher on a label value (regexes anchored);
+   `re_full v p` is the oracle for "v matches ^(?:p)$" *)
+Definition prom_match_val (re_full : string -> string -> bool) (op : mop) (x v : string) : bool :=
+  match op with
+  | MEq => String.eqb v x
+  | MNeq => negb (String.eqb v x)
+  | MRe => re_full v x
+  | MNre => negb (re_full v x)
+  end.
+(* _matcher.Matches(""): a series without the label satisfies the matcher *)
+Definition accepts_empty (re_full : string -> string -> bool) (m : matcher) : bool :=
+  prom_match_val re_full (m_op m) (m_val m) "".
+(* labels.Matcher.Inverse *)
+Definition inverse (m : matcher) : matcher :=
+  {| m_name := m_name m;
+     m_op := match m_op m with MEq => MNeq | MNeq => MEq | MRe => MNre | MNre => MRe end;
+     m_val := m_val m |}.
+(* the series that carry the label with a value the matcher rejects *)
+Definition rejected_query (c : pctx) (m : matcher) : select := stream_select c [prom_matcher (inverse m)].
+Definition not_rejected (c : pctx) (m : matcher) : expr :=
+  Eq (In (Id "fingerprint") [SubQ (rejected_query c m)]) (IntV 0).
+(* fingerprintsQuery: the matchers that reject "" go through the label-index planner (one index row has to
+   witness each); every matcher that accepts "" only excludes: fingerprint IN (<rejected>) == 0 is appended
+   to the WHERE, in the order of the matchers *)
+Definition fingerprints_query (re_full : string -> string -> bool) (c : pctx) (ms : list matcher) : select :=
+  fold_left (fun q m => and_where [not_rejected c m] q)
+            (filter (accepts_empty re_full) ms)
+            (stream_select c (map prom_matcher (filter (fun m => negb (accepts_empty re_full m)) ms))).
 
 (* ---------- processHints ---------- *)
 Definition is_instant (f : string) : bool := mem_str f instant_vectors || String.eqb f "".
@@ -105,8 +135,8 @@ Definition process_hints (q : select) (h : hints) : select :=
   else q1.
 
 (* ---------- TranspileLabelMatchers ---------- *)
-Definition transpile_label_matchers (h : hints) (c : pctx) (ms : list matcher) : select :=
-  let fpq := fingerprints_query c ms in
+Definition transpile_label_matchers (re_full : string -> string -> bool) (h : hints) (c : pctx) (ms : list matcher) : select :=
+  let fpq := fingerprints_query re_full c ms in
   let q := and_where [In (Id "samples.fingerprint") [WRef "fp_sel" fpq]]
              (add_withs [("fp_sel", fpq)] (init_clickhouse c)) in
   if Z.eqb (h_step h) 0 then q else process_hints q h.
@@ -125,8 +155,8 @@ Definition init_downsample (c : pctx) : select :=
          empty_select))))).
 
 (* StreamSelectCombiner.Process *)
-Definition stream_select_combiner (c : pctx) (ms : list matcher) : select :=
-  let fpq := fingerprints_query c ms in
+Definition stream_select_combiner (re_full : string -> string -> bool) (c : pctx) (ms : list matcher) : select :=
+  let fpq := fingerprints_query re_full c ms in
   and_where [In (Id "fingerprint") [WRef "fp_sel" fpq]] (add_withs [("fp_sel", fpq)] (init_downsample c)).
 
 (* DownsampleHintsPlanner.getValueMerge, Partial = false *)
@@ -167,8 +197,8 @@ Definition downsample_hints (q : select) (h : hints) : select :=
                                     IntV (h_step h)]; IntV 1] in
     patch_field "timestamp_ms" (Col tf "timestamp_ms") q1.
 
-Definition transpile_label_matchers_downsample (h : hints) (c : pctx) (ms : list matcher) : select :=
-  downsample_hints (stream_select_combiner c ms) h.
+Definition transpile_label_matchers_downsample (re_full : string -> string -> bool) (h : hints) (c : pctx) (ms : list matcher) : select :=
+  downsample_hints (stream_select_combiner re_full c ms) h.
 
 (* TranspileResponse.MapResult: only the down-sampled count_over_time sets it (the function itself is
    PromSelect.map_result_count: one sample of value 1 per counted raw sample) *)
@@ -188,14 +218,14 @@ Definition prom_ctx (cluster : bool) (dbname : string) (h : hints) : pctx :=
      t_ts_dist := (if cluster then "`" ++ dbname ++ "`.time_series_dist" else "time_series");
      t_m15 := m15 |}.
 
-Definition querier_transpile (cluster : bool) (dbname : string) (h : hints) (ms : list matcher) : select * bool :=
+Definition querier_transpile (re_full : string -> string -> bool) (cluster : bool) (dbname : string) (h : hints) (ms : list matcher) : select * bool :=
   let c := prom_ctx cluster dbname h in
-  if use_raw_data h then (transpile_label_matchers h c ms, false)
-  else (transpile_label_matchers_downsample h c ms, has_map_result false h).
+  if use_raw_data h then (transpile_label_matchers re_full h c ms, false)
+  else (transpile_label_matchers_downsample re_full h c ms, has_map_result false h).
 
 (* what Select sends: q.Query.String(ctx, INLINE_WITH when clustered) *)
-Definition select_sql (cluster : bool) (dbname : string) (h : hints) (ms : list matcher) : option string :=
-  render (fst (querier_transpile cluster dbname h ms)) cluster.
+Definition select_sql (re_full : string -> string -> bool) (cluster : bool) (dbname : string) (h : hints) (ms : list matcher) : option string :=
+  render (fst (querier_transpile re_full cluster dbname h ms)) cluster.
 
 (* ---------- labelsGetter.getFetchRequest ---------- *)
 (* fingerprints in the order given (Go iterates a map: the harness sorts the IN list of both sides).
@@ -209,12 +239,21 @@ Definition labels_fetch (cluster : bool) (fps : list N) (from_ms to_ms : Z) : se
 
 (* ---------- comparison functions used by generated case files ---------- *)
 Inductive pkind := KRaw | KDownsample | KQuerier.
-Record pcase := { pc_id : Z; pc_kind : pkind; pc_hints : hints; pc_ctx : pctx; pc_ms : list matcher }.
+(* pc_full: (pattern, value, anchored match) as answered by labels.Matcher.Matches in the harness; the planner
+   only asks about the value "" *)
+Fixpoint tbl_lookup (t : list (string * string * bool)) (v p : string) : bool :=
+  match t with
+  | [] => false
+  | (p', v', b) :: r => if String.eqb p p' && String.eqb v v' then b else tbl_lookup r v p
+  end.
+Record pcase := { pc_id : Z; pc_kind : pkind; pc_hints : hints; pc_ctx : pctx; pc_ms : list matcher;
+                  pc_full : list (string * string * bool) }.
 Definition pcase_sql (c : pcase) : option string * bool :=
+  let full := tbl_lookup (pc_full c) in
   match pc_kind c with
-  | KRaw => (render (transpile_label_matchers (pc_hints c) (pc_ctx c) (pc_ms c)) (c_cluster (pc_ctx c)), false)
-  | KDownsample => (render (transpile_label_matchers_downsample (pc_hints c) (pc_ctx c) (pc_ms c)) (c_cluster (pc_ctx c)),
+  | KRaw => (render (transpile_label_matchers full (pc_hints c) (pc_ctx c) (pc_ms c)) (c_cluster (pc_ctx c)), false)
+  | KDownsample => (render (transpile_label_matchers_downsample full (pc_hints c) (pc_ctx c) (pc_ms c)) (c_cluster (pc_ctx c)),
                     has_map_result false (pc_hints c))
-  | KQuerier => let '(q, mr) := querier_transpile (c_cluster (pc_ctx c)) "qryn" (pc_hints c) (pc_ms c) in
+  | KQuerier => let '(q, mr) := querier_transpile full (c_cluster (pc_ctx c)) "qryn" (pc_hints c) (pc_ms c) in
                 (render q (c_cluster (pc_ctx c)), mr)
   end.
